@@ -467,6 +467,8 @@ class Exec:
         if isinstance(l, NdV): l = Cell(l.t)
         if isinstance(r, NdV): r = Cell(r.t)
         if is_scalar(l) and is_scalar(r): return Cell(self.cellop(op, l.t, r.t))
+        if isinstance(op, ast.Pow) and isinstance(l, IntV) and ival(l.t) == -1 and isinstance(r, BoolV):
+            return Cell(z3.If(r.t, st.alg.of_int(z3.IntVal(-1)), st.alg.of_int(z3.IntVal(1))))        # (-1)**mask: the sign factor -1 / +1
         if isinstance(l, BoolV) or isinstance(r, BoolV): raise Undecided('arithmetic on bool')
         if is_scalar(l): f = st.elem(r); return Lazy(r.length, lambda i: self.cellop(op, l.t, f(i)))
         if is_scalar(r): f = st.elem(l); return Lazy(l.length, lambda i: self.cellop(op, f(i), r.t))
@@ -955,8 +957,8 @@ class Exec:
             return
         if isinstance(s, ast.AugAssign):
             cur = self.ev(s.target); new = self.binop(s.op, cur, self.ev(s.value))
-            if isinstance(s.target, ast.Name) and isinstance(cur, View):
-                self.store_view(cur, new); return          # in-place update of the array the name refers to
+            if isinstance(s.target, (ast.Name, ast.Attribute)) and isinstance(cur, View):
+                self.store_view(cur, new); return          # in-place update of the array the name / attribute (obj.data) refers to
             if isinstance(s.target, ast.Name) and isinstance(cur, CellRef):
                 if not cur.sure: raise Undecided('in-place update through %s: view or scalar copy depends on the array rank' % s.target.id)
                 if not is_scalar(new): raise Undecided('array stored into a row view')
